@@ -102,6 +102,7 @@ type cliCase struct {
 	slurp         bool
 	rawInput      bool
 	raw0          bool
+	raw0Alias     bool
 	decode        string // "", "probe", "json"
 	ddashAt       int
 	decodeInGroup bool // -d rides at the end of a combined short flag group
@@ -166,7 +167,11 @@ func (c *cliCase) argv(inputs []cliInput) []string {
 		}
 	}
 	if c.raw0 {
-		flags = append(flags, "--raw-output0")
+		if c.raw0Alias {
+			flags = append(flags, "--nul-output") // the documented alias spelling
+		} else {
+			flags = append(flags, "--raw-output0")
+		}
 	}
 	if !decodeDone {
 		switch c.decode {
@@ -298,8 +303,11 @@ func (*hcli) Run(rc *core.RunCtx) *core.RunResult {
 		if k == inJSON {
 			in.text = jsonTexts[t.Intn(len(jsonTexts))]
 			in.tail = "\n"
-			if t.Intn(4) == 0 {
+			switch t.Intn(8) {
+			case 0, 1:
 				in.tail = "" // no newline at the end of the file: in raw input mode its last line runs on into the next file
+			case 2:
+				in.tail = "\r\n" // CRLF: like jq, raw input splits at the line feed only and keeps the carriage return
 			}
 			json.Unmarshal([]byte(in.text), &in.val)
 		}
@@ -316,6 +324,7 @@ func (*hcli) Run(rc *core.RunCtx) *core.RunResult {
 	c.slurp = t.Intn(6) == 0
 	c.rawInput = t.Intn(5) == 0
 	c.raw0 = t.Intn(10) == 0
+	c.raw0Alias = c.raw0 && t.Intn(3) == 0
 	c.decode = []string{"", "", "", "probe", "json"}[t.Intn(5)]
 	c.decodeInGroup = t.Intn(3) == 0
 	c.decodeEq = t.Intn(2) == 0
